@@ -1,11 +1,12 @@
 //verif:package github.com/kstenerud/go-concise-encoding/cte
 //verif:stub (*github.com/antlr/antlr4/runtime/Go/antlr/v4.BaseParserRuleContext).GetText => github.com/kstenerud/go-concise-encoding/cte.c24GetText
 //verif:config cap=300
-//verif:bounds integer literals: optional '-', base prefix 0b/0B/0o/0O/0x/0X or none, 1..3 (quick) / 4 (thorough) symbolic digit characters of the base, at most one '_' run between two digits; typed-array elements: same shapes against bit sizes 8 and 16; \[hex] code point escapes of 1..4 symbolic hex digits; all 11 named escapes in both cases
-//verif:assume the lexer/parser (ANTLR) is not executed: listener callbacks are driven with a symbolic token text constrained to the lexer rule's shape (CTELexer.g4); float literals (big.ParseFloat, apd, regexp) and integers too long for 64 bits are outside reach
+//verif:bounds integer literals: optional '-', base prefix 0b/0B/0o/0O/0x/0X or none, 1..3 (quick) / 4 (thorough) symbolic digit characters of the base, at most one '_' run between two digits; decimal literals beyond 64 bits: optional '-', 0..2 leading zeros, 22 digits with the first and last two symbolic; typed-array elements: same shapes against bit sizes 8 and 16; \[hex] code point escapes of 1..4 symbolic hex digits; all 11 named escapes in both cases
+//verif:assume the lexer/parser (ANTLR) is not executed: listener callbacks are driven with a symbolic token text constrained to the lexer rule's shape (CTELexer.g4); float literals (big.ParseFloat, apd, regexp) and prefixed (non-decimal) integers too long for 64 bits are outside reach
 package cte
 
 import (
+	"math/big"
 	"unicode/utf8"
 
 	"github.com/antlr/antlr4/runtime/Go/antlr/v4"
@@ -105,6 +106,49 @@ func Verif_C24_IntegerLiteral() {
 		return
 	}
 	verifrt.Assert(verifrt.And(mag == l.mag, verifrt.Or(mag == 0, neg == l.neg)), "integer literal decodes to exactly the value it spells")
+}
+
+// Decimal literals too long for 64 bits take the big.Int fallback: optional
+// '-', 0..2 leading zeros, then 22 digits of which the first and the last two
+// are symbolic. The expected value is accumulated with big.Int arithmetic from
+// the digit values (no string parsing shared with the listener).
+func Verif_C24_BigDecimalLiteral() {
+	var text []byte
+	neg := verifrt.Choice("sign", 2) == 1
+	if neg {
+		text = append(text, '-')
+	}
+	for z := verifrt.Choice("leadingZeros", 3); z > 0; z-- {
+		text = append(text, '0')
+	}
+	d0, v0 := c24Digit(10)
+	verifrt.Assume(v0 != 0)
+	d1, v1 := c24Digit(10)
+	d2, v2 := c24Digit(10)
+	middle := "7766554433221100998"
+	text = append(text, d0)
+	text = append(text, middle...)
+	text = append(text, d1, d2)
+	want := new(big.Int).SetUint64(v0)
+	ten := big.NewInt(10)
+	for _, c := range []byte(middle) {
+		want.Mul(want, ten)
+		want.Add(want, big.NewInt(int64(c-'0')))
+	}
+	want.Mul(want, ten)
+	want.Add(want, new(big.Int).SetUint64(v1))
+	want.Mul(want, ten)
+	want.Add(want, new(big.Int).SetUint64(v2))
+	c24Text = string(text)
+	rec := &verifh.Rec{}
+	lst := &cteListener{eventReceiver: rec}
+	rejected := verifh.Try(func() { lst.ExitValueInt(parser.NewEmptyValueIntContext()) })
+	verifrt.Reach("parsed")
+	verifrt.Assert(!rejected, "a long decimal literal is accepted")
+	verifrt.Assert(len(rec.Evs) == 1 && rec.Evs[0].K == verifh.KBigInt, "one big integer event")
+	g := rec.Evs[0]
+	verifrt.Assert(g.B == neg, "sign of the long literal")
+	verifrt.Assert(verifrt.BytesEq(g.S, verifh.WordsLE(want)), "long decimal literal decodes to exactly the value it spells")
 }
 
 func trimSign(b []byte) []byte {
